@@ -91,6 +91,10 @@ def gen_doc(tape: Tape, marker: str, style: str = "canonical", size: int = 0) ->
                 lines.append(f"{k}::" + tape.pick(ATOMS, "a") + "→" + tape.pick(ATOMS, "b"))
     if style == "lenient":
         lines.append("LEN::p + q")
+    if style == "holo_repairable":
+        # a block the file-based TEST_HOLOGRAPHIC schema applies to, with values its lenient repair rewrites (enum casefold)
+        lines += ["TEST_HOLOGRAPHIC:", "  NAME::thing_" + marker, "  STATUS::" + tape.pick(["active", "draft", "Deprecated"], "doc.hs"),
+                  "  OPTIONAL_FIELD::x"]
     if style == "unicode":
         lines.append('Ключ::"значение ☃ é 𝔘"')
         lines.append("ÅB::naïve")
